@@ -581,6 +581,11 @@ def decorator_lift_transform_cached(transform, class_fn, **trafo_kwargs):
     class_fns = (class_fn,)
   prewrapped_fns = [wrap_method_once(class_fn) for class_fn in class_fns]
   trafo_fn = None
+  # Module state (auto-name cursor, ...) the method leaves behind, recorded per
+  # module fingerprint when the method is traced. A jit-cache hit does not run
+  # the Python body, so the state is replayed from here (like the rng counters
+  # in `lift.jit`).
+  states_after: dict[_HashableProxy, Any] = {}
 
   @functools.wraps(prewrapped_fns[0])
   def wrapped_fn(self: Module, *args, **kwargs):
@@ -608,6 +613,7 @@ def decorator_lift_transform_cached(transform, class_fn, **trafo_kwargs):
         object.__setattr__(cloned, '_state', self._state.export())
         res = prewrapped_fn(cloned, *args, **kwargs)
         self._state.reimport(cloned._state)
+        states_after[module_hash] = cloned._state.export()
         _test_transformed_return_values(
             res, getattr(class_fn, '__name__', None)
         )
@@ -642,7 +648,10 @@ def decorator_lift_transform_cached(transform, class_fn, **trafo_kwargs):
       # get a hashable proxy object for the Module
       hash_key = _HashableProxy.from_module(self)
 
-      return trafo_fn(module_scopes, hash_key, *args, **kwargs)
+      res = trafo_fn(module_scopes, hash_key, *args, **kwargs)
+      if hash_key in states_after:
+        self._state.reimport(states_after[hash_key])
+      return res
 
   return wrapped_fn
 
@@ -702,6 +711,8 @@ def module_class_lift_transform_cached(
     fn = getattr(module_class, fn_name)
     trafo_args, trafo_kwargs = fn_trafo_args
     trafo_fn = None
+    # see decorator_lift_transform_cached
+    states_after: dict[_HashableProxy, Any] = {}
 
     # we need to create a scope-function from our class for the given method
     @functools.wraps(fn)
@@ -728,6 +739,7 @@ def module_class_lift_transform_cached(
           object.__setattr__(cloned, '_state', self._state.export())
           res = fn(cloned, *args, **kwargs)
           self._state.reimport(cloned._state)
+          states_after[module_hash] = cloned._state.export()
           _test_transformed_return_values(res, fn_name)
           return res
 
@@ -739,6 +751,8 @@ def module_class_lift_transform_cached(
         hash_key = _HashableProxy.from_module(self)
 
         ret = trafo_fn(module_scopes, hash_key, *args, **kwargs)
+        if hash_key in states_after:
+          self._state.reimport(states_after[hash_key])
         return ret
 
     return wrapped_fn
